@@ -22,8 +22,8 @@ MCSpec == MCInit /\ [][MCNext]_vars
 
 SinglesQuick == {ZoneOf({r}) : r \in {r \in AllRecs : r[3] = 300 /\ r[1] = (IF r[2] \in {"SOA", "NS", "MX"} THEN <<>> ELSE <<"b", "a">>)}}
 ZonesQuick == Curated \cup SinglesQuick
-ZonesSpellQuick == {Z1, Z2, Z3, ZG, ZG2}
-ZonesSpellThorough == Curated \cup SinglesQuick
+ZonesSpellQuick == {Z1, Z2, Z3, ZG, ZG2} \cup GenZones
+ZonesSpellThorough == Curated \cup SinglesQuick \cup GenZones
 ZonesVac == {Z1, ZG}
 ZonesThorough == Curated \cup {ZoneOf({r}) : r \in {r \in AllRecs : r[3] = 300}} \cup WellFormedPairs
 
